@@ -261,31 +261,48 @@ def run(chk, tier):
 
         def stub(self, interp, st, path, c, args, t, caller):
             if path.endswith("Interpreter::<'a>::run_raw"):
-                return [(st, ("call", "run_raw", tuple(args), "R"))]
+                # name the evaluated block by its value (a reference to a loop local would look the same for every argument)
+                shown = tuple(_sx._target(interp, st, a_) if a_[0] in ("lref", "ptr", "href") else a_ for a_ in args)
+                return [(st, ("call", "run_raw", shown, "R"))]
             return None
     it_ = _sx.Interp(F, ArgPolicy())
-    ra_rows = []
-    for st_, r_ in it_.run(ra, [_sx.U("self"), _sx.U("args", ra.local_ty(2))]):
-        conds_ = tuple((c[2], c[3]) if c[0] == "variant" else ("not " + ",".join(c[2]), c[3]) if c[0] == "variant-not" else (c[1], c[2]) for c in st_.cond)
-        ra_rows.append((conds_, _sx.render(_sx.deep(st_, r_))))
-    RUN = r"run_raw\(self, [^,]+, 1\)"
-    okrows = 0
-    for conds_, rr_ in ra_rows:
-        key_ = "resolve_args|%s" % (";".join("%s@%s" % (a_, str(b_)[:24]) for a_, b_ in conds_)[:90])
-        is_bc = any(a_ == "ByteCode" and b_ == "*args" for a_, b_ in conds_)
-        extra = [c_ for c_ in conds_ if c_[1] != "*args" and not re.match(r"^%s$" % RUN, str(c_[1]))]
-        if extra:
-            chk.bad("R09.7", key_, "argument evaluation depends on %s: an argument block is treated differently according to its shape; a constant-folded failing argument (`max(2, 1/0)`) "
-                                   "then reaches the callee as a value while the same failure at run time fails the call" % (extra,), ra.file)
-        elif is_bc and (re.match(r"^Result::Ok\(\[%s\.Ok\.0\]\)$" % RUN, rr_) or re.match(r"^Result::Err\(%s\.Err\.0\)$" % RUN, rr_)):
-            okrows += 1
-            chk.ok("R09.7", key_, rr_[:80])
-        elif not is_bc and rr_ == "Result::Ok([*args])":
-            okrows += 1
-            chk.ok("R09.7", key_, "already a value")
-        else:
-            chk.bad("R09.7", key_, "unexpected argument row %s -> %s" % (conds_, rr_[:120]), ra.file)
-    chk.floor("R09.7", "argument rows (block ok / block failed / plain value)", okrows, 3)
+    # decided on a concrete list of two arguments (x0, x1): for every combination of {code block that evaluates, code block that fails, plain value}
+    CV_ = "rscel::types::cel_value::CelValue"
+
+    class ArgPolicy2(ArgPolicy):
+        max_paths = 4000
+
+        def limit_for(self, body, blk):
+            return 8
+    got_ra = set()
+    try:
+        for st_, r_ in _sx.Interp(F, ArgPolicy2()).run(ra, [_sx.U("self"), ("seq", (_sx.U("x0", CV_), _sx.U("x1", CV_)))]):
+            kinds = {}
+            other = []
+            for c in st_.cond:
+                if c[0] == "variant" and c[3] in ("x0", "x1") and c[2] == "ByteCode":
+                    kinds.setdefault(c[3], "block")
+                elif c[0] == "variant-not" and c[3] in ("x0", "x1"):
+                    kinds[c[3]] = "value"
+                elif c[0] == "variant" and re.match(r"^run_raw\(self, x[01]\.ByteCode\.0, 1\)$", str(c[3])):
+                    kinds[re.search(r"(x[01])", str(c[3])).group(1)] = "block-ok" if c[2] == "Ok" else "block-err"
+                else:
+                    other.append(tuple(c[:4]))
+            got_ra.add((kinds.get("x0", "?"), kinds.get("x1", "-"), tuple(other), _sx.render(_sx.deep(st_, r_))))
+    except Exception as e_:
+        got_ra.add(("could not be executed symbolically", str(e_)[:100], (), ""))
+    R0, R1 = "run_raw(self, x0.ByteCode.0, 1)", "run_raw(self, x1.ByteCode.0, 1)"
+    want_ra = {("block-ok", "block-ok", (), "Result::Ok([%s.Ok.0, %s.Ok.0])" % (R0, R1)), ("block-ok", "block-err", (), "Result::Err(%s.Err.0)" % R1),
+               ("block-ok", "value", (), "Result::Ok([%s.Ok.0, x1])" % R0), ("block-err", "-", (), "Result::Err(%s.Err.0)" % R0),
+               ("value", "block-ok", (), "Result::Ok([x0, %s.Ok.0])" % R1), ("value", "block-err", (), "Result::Err(%s.Err.0)" % R1), ("value", "value", (), "Result::Ok([x0, x1])")}
+    # (a failing first argument ends the evaluation: whether the second one was looked at is not observable)
+    norm_ra = set((a_ if True else a_, ("-" if a_ == "block-err" else b_), o_, r_) for a_, b_, o_, r_ in got_ra)
+    if norm_ra == want_ra:
+        chk.ok("R09.7", "resolve_args|two arguments", {"rows": len(norm_ra)})
+    else:
+        chk.bad("R09.7", "resolve_args|two arguments", "call arguments (x0, x1): every code block must be evaluated by run_raw in order, its failure must fail the call, plain values pass - whatever a block "
+                                                        "looks like (a constant-folded failing argument such as `max(2, 1/0)` must not reach the callee as a value); implementation only: %s; expected only: %s"
+                % (sorted(norm_ra - want_ra, key=str)[:2], sorted(want_ra - norm_ra, key=str)[:2]), ra.file)
     chk.analysed = {"pairs": npairs, "roots": PAIR_ROOTS, "vm_ops": len(sem)}
     return chk.finish(
         "Fold / VM agreement decided by comparing, per operator template, the folder's term with the symbolic value of the emitted code under the VM arm semantics "
